@@ -55,7 +55,9 @@ def decide_and_write(prop, pdef, tier, seed, results, wall, scratch):
                 # unmapped clause (post:?): attribute to the function's props
                 fk = f.get('fn')
                 props = r.get('fns', {}).get(fk, {}).get('props', []) if fk else []
-            if prop in props or f.get('all_props'):
+            # a failing obligation of a shared helper that carries no property of its own (ClassRead / ClassWrite defaults re-verified inside a unit): every proof of the unit
+            # uses its contract, so it counts for every property the unit serves
+            if prop in props or f.get('all_props') or (not props and r.get('engine') == 'verus' and involved):
                 failures.append(dict(f, unit=r['unit'], engine=r['engine']))
         if involved or r.get('undecided'):
             trusted.update(r.get('trusted', []))
